@@ -13,6 +13,8 @@ import Xandikos.Generated.Collation
 import Xandikos.Generated.Unescape
 import Xandikos.Generated.Wellknown
 import Xandikos.Generated.TimeRange
+import Xandikos.Generated.IterChanges
+import Xandikos.Generated.Gates
 import Xandikos.Driver.Codec
 
 open Xandikos Xandikos.Codec
@@ -45,6 +47,17 @@ def periodsOf (s : String) : List (Int × Int) :=
       | _, _ => none
     | _ => none
 
+/-- `n:ct:e,n:ct:e` (each part percent-encoded; `-` for the empty listing) -/
+def entriesOf (s : String) : List Generated.Entry :=
+  if s == "-" then [] else (s.splitOn ",").filterMap fun it =>
+    match it.splitOn ":" with
+    | [a, b, c] => some (pctDecode a, pctDecode b, pctDecode c)
+    | _ => none
+
+def optEnc : Option String → String
+  | some s => pctEncode s
+  | none => "~"
+
 def gstep (line : String) : String :=
   match words line with
   | ["etag", h, cur] => bb (Generated.etag_matches (fieldS h).toList ((field cur).map String.toList))
@@ -71,6 +84,15 @@ def gstep (line : String) : String :=
       else if kind == "vfreebusy" then exc (Generated.apply_time_range_vfreebusy s e comp tz)
       else "bad-op"
     | _, _ => "bad-op"
+  | ["ic", olds, news] =>
+    match Generated.iter_changes (entriesOf olds) (entriesOf news) with
+    | .ok rows => "=" ++ ",".intercalate (rows.map fun (n, ct, o, e) =>
+        pctEncode n ++ ":" ++ pctEncode ct ++ ":" ++ optEnc o ++ ":" ++ optEnc e)
+    | .error (.raised cls _) => "raise:" ++ cls
+  | ["pg", im, inm, cur] =>
+    exc (Generated.put_refuses ((field im).map String.toList) ((field inm).map String.toList) ((field cur).map String.toList))
+  | ["dg", im, cur] => exc (Generated.delete_refuses ((field im).map String.toList) ((field cur).map String.toList))
+  | ["gg", inm, cur] => exc (Generated.get_not_modified ((field inm).map String.toList) ((field cur).map String.toList))
   | ["match", a, b, k] => exc (Generated.match_ (fieldS a).toList (fieldS b).toList (fieldS k).toList)
   | ["collate", name, a, b, k] =>
     match Generated.collations.find? (fun r => r.1 == (fieldS name).toList) with
